@@ -343,6 +343,34 @@ PROPS["C02"] = {
     "assumptions": ["bounded execution is used only to find a differing trace; termination is judged relative to a step budget"],
 }
 
+import suite_sem  # noqa: E402
+
+PROPS["C03"] = {
+    "lean": ["CocoVerif.Props.C03"],
+    "lean_extra": B09_LEAN_EXTRA,
+    "suites": [{"name": "sem", "relevant": lambda c: True, "oracle": suite_sem.oracle, "classify": suite_sem.classify}],
+    "search": None,
+    "rule": "28 probes + 200 (thorough: 2500) generated programs mixing DIM with 1-3 dimensions and decimal or hex bounds (writes and "
+            "reads at the corner indices 0 and N), implicit arrays (index 0..10, read before write, used only inside a function "
+            "argument), DATA lines with numeric, exponent, hex, quoted, unquoted and empty items placed before / after / around "
+            "their READs, READ into scalars, strings and array elements, RESTORE, PRINT lists in every arrangement of ; , and "
+            "juxtaposition with leading, doubled and trailing separators and `?`, INPUT / LINE INPUT with and without prompt into "
+            "scalars, strings and elements, LEFT$/RIGHT$/MID$/LEN/ASC/CHR$/VAL/STR$/INSTR/STRING$ at edge operands, reads of "
+            "never-assigned variables; options: pre-initialisation on/off x line filter on/off, string storage 32 and 80, always "
+            "with the standard prologue (base 0).  The source runs on the strict Color BASIC machine and the real output on the "
+            "strict BASIC09 machine with the same input script; PRINT/INPUT event traces and final variable stores are compared; "
+            "distinct = distinct (program, options)",
+    "trusted": B09_TRUSTED + ["harness/ctlsem.py (strict mode): arrays 0..N after DIM N and 0..10 without, elements start as 0 / \"\", "
+                              "READ order, RESTORE, empty item = 0 / \"\", PRINT number format `sign digits blank`, STR$ without trailing "
+                              "blank, INPUT prompt + `? ` (Color BASIC side, from the manuals); BASE is declarative, an array needs a "
+                              "DIM, index range base..base+n-1, READ is typed, PRINT of a REAL is `digits.`, data memory is not "
+                              "cleared (BASIC09 side); ecb_str = blank + STR$ without trailing point + blank (from ecb.b09)"],
+    "assumptions": ["programs for which Color BASIC stops with an error (SN for a string datum read into a number) are not compared",
+                    "without pre-initialisation a never-assigned BASIC09 variable is taken to read as 0 / \"\" (the property only speaks "
+                    "about reads when pre-initialisation was requested)",
+                    "string values stay below 32 characters, so BASIC09's fixed string storage never truncates"],
+}
+
 import suite_expr  # noqa: E402
 
 PROPS["C01"] = {
@@ -468,6 +496,11 @@ def replay_witness(f):
         o = {"flags": w.get("flags", "0100000"), "storage": 32, "procname": "", "sizes": []}
         case = {"text": w["text"], "opts": o}
         return suite_ctl.oracle(case, impl_b09.convert(w["text"], o))
+    if isinstance(w, dict) and w.get("type") == "sem":
+        import impl_b09
+        o = {"flags": w.get("flags", "1100100"), "storage": w.get("storage", 32), "procname": "", "sizes": []}
+        case = {"text": w["text"], "opts": o}
+        return suite_sem.oracle(case, impl_b09.convert(w["text"], o), quiet=True)
     if isinstance(w, dict) and w.get("type") == "expr":
         import impl_b09
         case = {"text": w["text"], "ctx": w["ctx"], "ekind": w["ekind"], "expr": w["expr"], "opts": suite_expr.OPTS}
